@@ -109,7 +109,7 @@ class ImplicitMFScorer(ALSBase):
     def new_user_embedding(
         self, user_num: int | None, user_items: ItemList
     ) -> tuple[torch.Tensor, None]:
-        ri_idxes = user_items.numbers("torch", vocabulary=self.items_)
+        ri_idxes = user_items.numbers("torch", vocabulary=self.items_, missing="negative")
 
         ri_good = ri_idxes >= 0
         ri_it = ri_idxes[ri_good]
@@ -119,7 +119,7 @@ class ImplicitMFScorer(ALSBase):
                 raise ValueError("no ratings in user items")
             ri_val = ratings[ri_good] * self.config.weight
         else:
-            ri_val = torch.full((len(ri_good),), self.config.weight)
+            ri_val = torch.full((len(ri_it),), self.config.weight)
 
         ri_val = ri_val.to(self.item_features_.dtype)
 
